@@ -1,6 +1,6 @@
 ----------------------------- MODULE FourierObj -----------------------------
 (* Object-history model of gonum's dsp/fourier transform objects (FFT,        *)
-(* CmplxFFT, DCT, DST, QuarterWaveFFT).                                       *)
+(* CmplxFFT, DCT, DST, QuarterWaveFFT) and of dsp/transform's Hilbert.        *)
 (*                                                                            *)
 (* The property clause modelled here: "a transform object gives the same      *)
 (* answer regardless of what lengths or data it was previously used or Reset  *)
@@ -36,12 +36,13 @@ VARIABLES typ,   \* typ[o]: type of object o, "none" before the first successful
           log    \* R1 only: raw history of successful transform calls, <<key, token>>
 vars == <<typ, len, memo, last, log>>
 
-Types == {"FFT", "CmplxFFT", "DCT", "DST", "QW"}
+Types == {"FFT", "CmplxFFT", "DCT", "DST", "QW", "Hilbert"}
 KindsOf(t) == CASE t = "FFT"      -> {"FFT.coef", "FFT.seq"}
                 [] t = "CmplxFFT" -> {"CmplxFFT.coef", "CmplxFFT.seq"}
                 [] t = "DCT"      -> {"DCT.t"}
                 [] t = "DST"      -> {"DST.t"}
                 [] t = "QW"       -> {"QW.cosc", "QW.coss", "QW.sinc", "QW.sins"}
+                [] t = "Hilbert"  -> {"Hilbert.as"}   \* dsp/transform: AnalyticSignal (real -> complex; no Reset)
                 [] OTHER          -> {}
 \* NewDCT / DCT.Reset are documented to panic unless n > 1
 MinLen(t) == IF t = "DCT" THEN 2 ELSE 1
@@ -49,7 +50,7 @@ MinLen(t) == IF t = "DCT" THEN 2 ELSE 1
 SrcLen(kind, n) == IF kind = "FFT.seq"  THEN n \div 2 + 1 ELSE n
 DstLen(kind, n) == IF kind = "FFT.coef" THEN n \div 2 + 1 ELSE n
 \* dst and src have the same element type (dst = src is documented as safe)
-CanAlias(kind) == kind \notin {"FFT.coef", "FFT.seq"}
+CanAlias(kind) == kind \notin {"FFT.coef", "FFT.seq", "Hilbert.as"}
 Modes == {"nil", "fresh", "same"}
 
 NoRes == [out |-> "ok", tok |-> "", n |-> 0, retdst |-> FALSE]
@@ -69,7 +70,7 @@ New(o, t, m) ==
          /\ last' = NoRes /\ UNCHANGED memo
 
 Reset(o, m) ==
-    /\ typ[o] # "none"
+    /\ typ[o] \notin {"none", "Hilbert"}
     /\ IF m < MinLen(typ[o]) THEN Panic
        ELSE /\ len' = [len EXCEPT ![o] = m]
             /\ last' = NoRes /\ UNCHANGED <<typ, memo>>
